@@ -53,7 +53,8 @@ import time
 
 from lib import common
 
-RUN = os.path.join(common.BUILD, "ocaml", "api", "run")
+RUN_BUILT = os.path.join(common.BUILD, "ocaml", "api", "run")
+RUN = RUN_BUILT          # replaced by a private copy while a check is running
 CORPUS = os.path.join(common.VERIF, "corpus", "C15")
 POOLDIR = os.path.join(CORPUS, "pool")
 NPROC = 16
@@ -470,8 +471,13 @@ def compile_obs(b):
     return {"ret": b.ret, "msgs": b.M.get(h, []), "stderr": b.err, "stdout": b.out, "module": b.mod}
 
 
-def exec_obs(b):
-    return {"ret": b.ret, "res": b.res, "stdout": strip_machine(b.out), "stderr": b.err}
+def exec_obs(b, mask_lines=False):
+    """what a call gave.  mask_lines: the line number inside a run-time diagnostic is the VM's line_no register, i.e.
+    the last LINE instruction executed — possibly one of an EARLIER call when the faulting entry function has not
+    executed a LINE of its own yet; it is not one of the global-variable effects a primed fresh VM shares, so the
+    oracles that compare against a differently primed VM (2b, 2c) ignore it (the replay oracle (2) does not)."""
+    err = re.sub(r":\d+: ", ":#: ", b.err) if mask_lines else b.err
+    return {"ret": b.ret, "res": b.res, "stdout": strip_machine(b.out), "stderr": err}
 
 
 def strip_machine(out):
@@ -831,8 +837,8 @@ def evaluate(env, hist, want=None):
                 break
             if spec["pure"] and src != "initfail":
                 solo = get_solo_call(env, src, entry, args, mode=mode)
-                if solo is not None and exec_obs(b) != exec_obs(solo):
-                    F.append(finding(obs_diff_key(exec_obs(b), exec_obs(solo), "execute:pure-call-differs-from-first-call")[0],
+                if solo is not None and exec_obs(b, True) != exec_obs(solo, True):
+                    F.append(finding(obs_diff_key(exec_obs(b, True), exec_obs(solo, True), "execute:pure-call-differs-from-first-call")[0],
                                      "call #%d on VM %d (%s %s) of a program without global effects gave %s, the first call on "
                                      "a fresh VM %s" % (n + 1, v, entry, " ".join(args), exec_obs(b), exec_obs(solo)), at_op=b.idx))
                 stats["primed"] += 1
@@ -841,8 +847,8 @@ def evaluate(env, hist, want=None):
                 state = prevb[0].res.split(" ")[1]
                 solo = get_solo_call(env, src, entry, args, pre=(spec["state"][1], ("i:" + state,)), mode=mode)
                 stats["primed"] += 1
-                if solo is not None and exec_obs(b) != exec_obs(solo):
-                    F.append(finding(obs_diff_key(exec_obs(b), exec_obs(solo), "execute:call-differs-from-primed-fresh-vm")[0],
+                if solo is not None and exec_obs(b, True) != exec_obs(solo, True):
+                    F.append(finding(obs_diff_key(exec_obs(b, True), exec_obs(solo, True), "execute:call-differs-from-primed-fresh-vm")[0],
                                      "call #%d on VM %d (%s %s) with global state %s gave %s; a fresh VM primed with set(%s) gives %s" % (
                                          n + 1, v, entry, " ".join(args), state, exec_obs(b), state, exec_obs(solo)), at_op=b.idx))
             prevb = (b, src, entry)
@@ -992,8 +998,9 @@ def shrink(env, hist, key, budget=70):
 _ENV = None
 
 
-def _init_worker(drv, workdir, policy):
-    global _ENV
+def _init_worker(drv, workdir, policy, runner):
+    global _ENV, RUN
+    RUN = runner
     _ENV = Env(drv, workdir, policy)
 
 
@@ -1040,12 +1047,46 @@ def repeat_probe(drv, workdir, n=300, stack=200):
 
 
 # ------------------------------------------------------------------------------------------
+def private_copy(src, dst, probe_input, lock):
+    """build/ and .cache/ are shared and may be rebuilt/evicted by a concurrent bin/build-ocaml or bin/repobuild:
+    work on copies, and make sure the copy runs"""
+    last = ""
+    for _ in range(8):
+        try:
+            with common.Lock(lock):
+                shutil.copy2(src, dst)
+            os.chmod(dst, 0o755)
+            rc, so, se = common.sh([dst] + ([] if probe_input is not None else ["/nonexistent-script"]), timeout=30,
+                                   input=probe_input)
+            if (probe_input is not None and rc == 0) or (probe_input is None and rc == 2):
+                return dst
+            last = "probe exit code %d: %s" % (rc, se[-200:])
+        except (OSError, IOError) as e:
+            last = str(e)
+        time.sleep(1.0)
+    raise OSError("cannot obtain a working copy of %s: %s" % (src, last))
+
+
+def runner_is_current():
+    if not os.path.exists(RUN_BUILT):
+        return False
+    srcs = [os.path.join(common.COQ, "Extract", "ExtractApi.v"), os.path.join(common.COQ, "VM", "Api.vo"),
+            os.path.join(common.VERIF, "harness", "ocaml", "api", "apirun.ml")]
+    t = os.path.getmtime(RUN_BUILT)
+    return all(os.path.exists(p) and os.path.getmtime(p) <= t for p in srcs)
+
+
 def run(ctx):
+    global RUN
+    RUN = RUN_BUILT
     t0 = time.time()
     ctx.proofs()
     lib = common.repobuild("asan")
     ok, log = common.ocaml_build()
-    if not ok or not os.path.exists(RUN):
+    if not ok and runner_is_current():
+        ctx.notes["ocaml_build_failed_in_another_engine"] = log[-300:]     # bin/build-ocaml stops at the first failure
+        ok = True
+    if not ok or not os.path.exists(RUN_BUILT):
         ctx.correspondence_broken("ocaml-build", log[-2000:])
         return
     drv = common.cc_driver("apidrive", ["api/apidrive.c"], lib)
@@ -1055,6 +1096,12 @@ def run(ctx):
     workdir = os.path.join(ctx.outdir, "work")
     shutil.rmtree(workdir, ignore_errors=True)
     os.makedirs(workdir)
+    try:
+        RUN = private_copy(RUN_BUILT, os.path.join(workdir, "apirun"), "POLICY 1 1\n", "ocaml")
+        drv = private_copy(drv, os.path.join(workdir, "apidrive"), None, "cc.apidrive")
+    except OSError as e:
+        ctx.correspondence_broken("c15-binaries-unavailable", str(e))
+        return
     ctx.coverage["partial"] = ("compile determinism/isolation (flex/bison/utils.c globals) is correspondence-only: no Gallina "
                                "model expresses that state; proved part = the VM/API bookkeeping of VM/Api.v")
     ctx.coverage["trusted_base"] = ctx.coverage.get("trusted_base", []) + [
@@ -1096,7 +1143,7 @@ def run(ctx):
     # ---- histories ---------------------------------------------------------------------------
     quick = ctx.tier == "quick"
     plan = ([("mixed", 90), ("compile", 50), ("twovm", 30), ("repeat", 16)] if quick else
-            [("mixed", 1400), ("compile", 700), ("twovm", 500), ("repeat", 160)])
+            [("mixed", 5000), ("compile", 2500), ("twovm", 1800), ("repeat", 500)])
     jobs = []
     n = 0
     # corpus first
@@ -1125,7 +1172,7 @@ def run(ctx):
             jobs.append((n, kind, ctx.seed, None)); n += 1
 
     results = []
-    with multiprocessing.Pool(NPROC, initializer=_init_worker, initargs=(drv, workdir, policy)) as pool:
+    with multiprocessing.Pool(NPROC, initializer=_init_worker, initargs=(drv, workdir, policy, RUN)) as pool:
         for res in pool.imap_unordered(_work, jobs, chunksize=2):
             results.append(res)
     results.sort(key=lambda x: x[0])
